@@ -237,7 +237,7 @@ class Model_cfit_cached(Model_cfit):
             ]
 
         int_sig, g_int_sig = sum_gradient_data2(
-            self.cached_amp,
+            lambda x, c_data: self.eff(x) * self.cached_amp(x, c_data),
             self.Amp.trainable_variables,
             mcdata,
             self.cached_data[mc_id],
